@@ -40,6 +40,7 @@ pub use runner::{SessionEngine, SessionHandle};
 /// Verification exports (compiled only with `--cfg rip_verif`).
 #[cfg(rip_verif)]
 pub mod verif_export {
+    pub use crate::checkpoints::WorkspaceCheckpointHook;
     pub use crate::provider_openresponses::OpenResponsesConfig;
     pub use crate::server::VerifApp;
     pub use crate::session::verif_sse_pipe_run as sse_pipe_run;
